@@ -126,6 +126,21 @@ def plan(prop, tier, seed, avoid):
                 f"executed on a second world with different component IDs, both worlds receiving the same relation argument lists (built once "
                 f"with Rel/RelIdx) for their filters and queries; {spec['rule_extra']}")
         return dict(jobs=jobs, rule=rule, assumptions=ASSUME_ENGINE)
+    if prop in ("C01", "C04"):
+        # second job group: scale - thousands of entities in few tables, hundreds of relation targets and tables, 400-800 ops
+        spec = ENGINE[prop]
+        jobs = engine_jobs(prop, tier, seed, avoid)
+        flags = [f for f in spec["flags"]]
+        flags[flags.index("-standing") + 1] = "16"
+        spec2 = dict(spec, profile="scale", flags=flags + ["-sweep", "10", "-stats", "20", "-minops", "400", "-maxops", "800"],
+                     quick=dict(plain=64, checkptr=16), thorough=dict(plain=3200, checkptr=320))
+        jobs += engine_jobs(prop, tier, seed + 13, avoid, spec2, None, "scale:")
+        rule = (f"histories generated by profile '{spec['profile']}' from splitmix64(VERIF_SEED, case index): world configuration "
+                f"(capacities, component-ID offset, registration order) plus 150-600 ops drawn from the model state; distinct = distinct SHA-256 "
+                f"of the rendered op list; job group 2 ('scale:'): profile 'scale' - 400-800 ops, up to 3000 alive entities in few tables "
+                f"(batches of up to 900: several capacity doublings), relation targets drawn from a pool of 400 entities (hundreds of relation "
+                f"tables, long free lists), state sweep every 10th op; {spec['rule_extra']}")
+        return dict(jobs=jobs, rule=rule, assumptions=ASSUME_ENGINE)
     if prop == "C15":
         # second job group: whole tables created, emptied, shrunk and refilled in bulk (initial capacities 64..256, batches of up to 150)
         spec = ENGINE[prop]
